@@ -6,6 +6,7 @@
   table-independent lifting lemma, so a regenerated table that still satisfies
   the property re-checks without editing any proof.
 -/
+import Model.Gen.Wire
 import Proofs.Lemmas.Codes
 
 namespace Codes
@@ -136,5 +137,11 @@ theorem C14_fallback_ok_iff_2xx (s : Int) :
 example : httpStatusFromCode 5 = 404 ∧ codeFromHttpStatus 503 = 14 ∧ codeFromHttpStatus 204 = 0 := by decide
 example : clientCodeMsg 500 [] (some (statusHeaderValue 15 [97, 58, 98])) = (15, [97, 58, 98]) :=
   C14_client_recovers_code 15 (by omega) _ _ _
+
+/-- regenerated from client.go: the status header value is taken apart at its FIRST colon, into at most two parts — which
+    is what `splitN2 h 58` in `clientCodeMsg` models (so a message containing colons cannot disturb the code:
+    `C14_client_recovers_code` holds for every message) -/
+theorem C14_status_header_split_fact :
+    Gen.statusHeaderSplit = "strings.SplitN(reply.Header.Get(\"X-GRPC-Status\"), \":\", 2)" := by decide
 
 end Codes
